@@ -229,6 +229,26 @@ def setPkg (s : State) (p : Pkg) : State := { s with b := { s.b with pkg := p } 
 /-- builder.go:203 `reset2CurPkg` (the probe calls from package p0) -/
 def reset2CurPkg (s : State) : State := setPkg s .p0
 
+/-- `CachedMethodMocker.mCache` of the cached struct mocker (empty when there is none yet) -/
+def stInner (s : State) : Bool → Option Nat :=
+  match s.b.stC with | some c => c | none => fun _ => none
+
+/-- builder.go:85 `Struct`: the embedded MethodMocker of a CachedMethodMocker is never cancelled (cache.go:62 Cancel only
+    walks the caches), so the key is a hit whenever it exists; else NewCachedMethodMocker (empty mCache) is cached. -/
+def structLookup (s : State) : State :=
+  reset2CurPkg { s with b := { s.b with stC := some (stInner s) } }
+
+/-- builder.go:62 `Interface`: hit unless `Canceled()`, which is `ctx.Canceled()` (cache.go:158); else iface.NewContext()
+    and NewCachedInterfaceMocker (empty mockers).  Returns the state, the context and the cached mocker's `mockers["M"]`. -/
+def ifaceLookup (s : State) : State × Nat × Option Nat :=
+  match s.b.ifC with
+  | some (c, inner) =>
+    if s.ctxc c then
+      (reset2CurPkg { s with ctxc := upd s.ctxc s.nctx false, nctx := s.nctx + 1, b := { s.b with ifC := some (s.nctx, none) } }, s.nctx, none)
+    else (reset2CurPkg s, c, inner)
+  | none =>
+    (reset2CurPkg { s with ctxc := upd s.ctxc s.nctx false, nctx := s.nctx + 1, b := { s.b with ifC := some (s.nctx, none) } }, s.nctx, none)
+
 /-- the lookups.  Every branch ends in `reset2CurPkg` exactly where the source does. -/
 def lookup (s : State) : Handle → State × Nat
   | .fn i =>                                                   -- builder.go:102 Func
@@ -244,26 +264,15 @@ def lookup (s : State) : Handle → State × Nat
     | none =>
       let (s1, mid) := alloc s { tgt := .xf p n }              -- NewUnexportedFuncMocker(b.pkgName, name)
       (reset2CurPkg { s1 with b := { s1.b with xfC := upd s1.b.xfC p (upd (s1.b.xfC p) n (some mid)) } }, mid)
-  | .st i =>                                                   -- builder.go:85 Struct; the embedded MethodMocker of a
-    let inner : Bool → Option Nat :=                           -- CachedMethodMocker is never cancelled (cache.go:62), so a hit
-      match s.b.stC with | some c => c | none => fun _ => none --   whenever the key exists; else NewCachedMethodMocker (empty mCache)
-    let s0 := reset2CurPkg { s with b := { s.b with stC := some inner } }
-    match liveOf s0 (inner i) with                             -- cache.go:42 Method
+  | .st i =>
+    let s0 := structLookup s
+    match liveOf s0 (stInner s i) with                         -- cache.go:42 Method
     | some mid => (s0, mid)
     | none =>
       let (s1, mid) := alloc s0 { tgt := .st i }               -- NewMethodMocker + Method(name)
-      ({ s1 with b := { s1.b with stC := some (upd inner i (some mid)) } }, mid)
-  | .im =>                                                     -- builder.go:62 Interface; Canceled() = ctx.Canceled() (cache.go:158)
-    let hit : Option (Nat × Option Nat) :=
-      match s.b.ifC with
-      | some (c, inner) => if s.ctxc c then none else some (c, inner)
-      | none => none
-    let (s0, c, inner) : State × Nat × Option Nat :=
-      match hit with
-      | some (c, inner) => (s, c, inner)
-      | none =>                                                -- iface.NewContext(), NewCachedInterfaceMocker (empty mockers)
-        ({ s with ctxc := upd s.ctxc s.nctx false, nctx := s.nctx + 1, b := { s.b with ifC := some (s.nctx, none) } }, s.nctx, none)
-    let s0 := reset2CurPkg s0
+      ({ s1 with b := { s1.b with stC := some (upd (stInner s) i (some mid)) } }, mid)
+  | .im =>
+    let (s0, c, inner) := ifaceLookup s
     match liveOf s0 inner with                                 -- cache.go:140 Method
     | some mid => (s0, mid)
     | none =>
@@ -346,8 +355,7 @@ def step (v : Variant) (s : State) : Op → State × StepRes
   | .reset => (resetB s, .none)
   | .var => (varLookup v s, .none)
   | .stBad =>                                                    -- Struct(..) succeeds (and resets the package), Method("Mz") panics
-    let inner : Bool → Option Nat := match s.b.stC with | some c => c | none => fun _ => none
-    (reset2CurPkg { s with b := { s.b with stC := some inner } }, .err .methodNotFound)
+    (structLookup s, .err .methodNotFound)
   | .h hd ins =>
     let (s1, mid) := lookup s hd
     match instr v s1 mid ins with
@@ -384,8 +392,8 @@ def observe (s : State) : State × List Res :=
 def run (v : Variant) : State → List Op → List (StepRes × List Res)
   | _, [] => []
   | s, op :: ops =>
-    let (s1, r) := step v s op
-    let (s2, o) := observe s1
-    (r, o) :: run v s2 ops
+    let r := step v s op
+    let o := observe r.1
+    (r.2, o.2) :: run v o.1 ops
 
 end C12M
